@@ -991,3 +991,102 @@ _CHK_THOROUGH = [
 REGISTRY["C17"] = ChkFamily("C17", mc={"quick": _CHK_HELPERS, "thorough": _CHK_THOROUGH}, sims={"quick": [], "thorough": []},
                             exh={"quick": _CHK_HELPERS, "thorough": _CHK_THOROUGH},
                             random_cfg={"quick": {"n": 20000}, "thorough": {"n": 300000}})
+
+
+# ---------------------------------------------------------------------------
+# fluent family (C18): GribiFluent / GribiFluent_MC / GribiFluentTrace
+
+def fluent_cfg(BKinds=("nh", "nhg"), MaxSteps=4, MaxBuilders=2, Modes=("elected",), EmitOn=False, view=True, invariants=True):
+    lines = ["SPECIFICATION MCSpec", "CONSTANTS", f"  BKinds = {tlaset(BKinds)}", f"  MaxSteps = {MaxSteps}", f"  MaxBuilders = {MaxBuilders}",
+             f"  Modes = {tlaset(Modes)}", f"  EmitOn = {str(EmitOn).upper()}"]
+    if view:
+        lines.append("VIEW View")
+    if invariants:
+        lines.append("INVARIANTS IdsFromOne StampedWhenElected")
+        lines.append("PROPERTIES QueuedImmutable")
+    if EmitOn:
+        lines.append("INVARIANTS Emit")
+    lines.append("CHECK_DEADLOCK FALSE")
+    return "\n".join(lines) + "\n"
+
+
+def fluent_stats(path, prop):
+    segs = events = 0
+    distinct, nontrivial = set(), set()
+    samples = []
+    cur, flags = None, None
+
+    def close():
+        nonlocal cur
+        if cur is None:
+            return
+        key = vlib.sha(json.dumps(cur, sort_keys=True))
+        distinct.add(key)
+        if flags["q"] >= 1 and flags["call_after_q"] >= 1:
+            nontrivial.add(key)
+            if len(samples) < 3:
+                samples.append(cur[:14])
+        cur = None
+
+    with open(path) as fh:
+        for line in fh:
+            e = json.loads(line)
+            events += 1
+            if e["ev"] == "fstart":
+                close()
+                segs += 1
+                cur, flags = [], collections.Counter()
+            if cur is None:
+                continue
+            cur.append({k: v for k, v in e.items() if k not in ("entries", "msgs")})
+            if e["ev"] == "fq":
+                flags["q"] += 1
+            elif e["ev"] in ("fcall", "fupd") and flags["q"]:
+                flags["call_after_q"] += 1
+    close()
+    return dict(segments=segs, events=events, distinct=len(distinct), nontrivial=len(nontrivial), samples=samples)
+
+
+class FluentFamily(RIBFamily):
+    MC_MODULE = "GribiFluent_MC"
+    TRACE_MODULE = "GribiFluentTrace"
+    TRACE_SPEC = "FTSpec"
+    TRACE_CONSTS = ""
+    VH_CMD = "fluent-run"
+    FAMILY = "fluent"
+    RESET_PREFIX = '{"ev":"fstart"'
+
+    @staticmethod
+    def cfg(**kw):
+        return fluent_cfg(**kw)
+
+    @staticmethod
+    def attr(comp, ev, rec):
+        return {"C18"} if comp.startswith("fluent") else set()
+
+    @staticmethod
+    def stats(path, prop):
+        return fluent_stats(path, prop)
+
+    @staticmethod
+    def to_inputs(evs):
+        return [{k: v for k, v in e.items() if k not in ("entries", "msgs")} for e in evs]
+
+    def vh_args(self, ctx, rc):
+        return ["-random", str(rc["n"]), "-len", str(rc["len"])]
+
+    def rule(self):
+        return ("one case = one program of builder calls, AddEntry/ReplaceEntry/DeleteEntry and UpdateElectionID calls executed on the real fluent API "
+                "with a recording stub; non-trivial = something was queued and a builder or the election id was changed afterwards; distinct by program")
+
+    def replay(self, ctx, path):
+        raise Infra("fluent programs are replayed by re-running ./check C18 with the recorded seed")
+
+
+REGISTRY["C18"] = FluentFamily("C18",
+    mc={"quick": [dict(MaxSteps=4, BKinds=("nh", "nhg")), dict(MaxSteps=4, BKinds=("v4", "mpls"), Modes=("elected", "all"))],
+        "thorough": [dict(MaxSteps=5, BKinds=("nh", "nhg")), dict(MaxSteps=5, BKinds=("v4", "v6", "mpls"), Modes=("elected", "all"))]},
+    sims={"quick": [(dict(MaxSteps=14, BKinds=("nh", "nhg", "v4", "v6", "mpls"), MaxBuilders=3, Modes=("elected", "all")), 300, 40)],
+          "thorough": [(dict(MaxSteps=16, BKinds=("nh", "nhg", "v4", "v6", "mpls"), MaxBuilders=3, Modes=("elected", "all")), 6000, 40)]},
+    exh={"quick": [dict(MaxSteps=3, BKinds=("nh",), MaxBuilders=1)], "thorough": [dict(MaxSteps=4, BKinds=("nh",), MaxBuilders=1)]},
+    random_cfg={"quick": {"n": 400, "len": 30}, "thorough": {"n": 10000, "len": 40}})
